@@ -297,6 +297,20 @@ func init() {
 				cs = append(cs, CaseSpec{Kind: "edits", P: map[string]int64{"seqs": seqs}})
 			}
 			cs = append(cs, CaseSpec{Kind: "decisions", P: map[string]int64{"maxn": 16}})
+			// fame decisions of a real Hashgraph against a replay of the votes with the
+			// supermajority of the validators as decision threshold
+			fames := 8
+			if tier == "thorough" {
+				fames = 80
+			}
+			shapes := []string{"bare-supermajority", "long-election", "long-election-1", "long-election-2", "long-election-3", "straggler-round"}
+			for i := 0; i < fames; i++ {
+				c := CaseSpec{Kind: "fame", P: map[string]int64{"n": int64(5 + i%3), "events": int64(150 + (i*37)%150)}, S: map[string]string{}}
+				if i%2 == 0 {
+					c.S["shape"] = shapes[(i/2)%len(shapes)]
+				}
+				cs = append(cs, c)
+			}
 			return cs
 		},
 		Run: func(cs CaseSpec) *CaseResult {
@@ -305,10 +319,87 @@ func init() {
 				return runThresholdRange(cs)
 			case "edits":
 				return runThresholdEdits(cs)
+			case "fame":
+				return runThresholdFame(cs)
 			default:
 				return runThresholdDecisions(cs)
 			}
 		},
 		PerCaseTimeout: 10 * time.Minute,
 	})
+}
+
+// runThresholdFame: a DAG (corpus shape or random, five to seven validators)
+// is run by a real Hashgraph, event by event. Every fame decision it took is
+// then compared with a replay of the virtual votes (real see / strongly-see
+// predicates, harness-side counting) in which only a witness that collects a
+// supermajority of the VALIDATORS of its round may decide: a decision that the
+// replay cannot reproduce was taken on fewer concurring votes.
+func runThresholdFame(cs CaseSpec) *CaseResult {
+	res := newResult(cs)
+	rng := cs.rng("c19fame")
+	sp := dagSpecFromCase(cs)
+	sp.Liars = 0
+	var d *Dag
+	if shape := cs.Str("shape", ""); shape != "" {
+		sp.N = shapeCreators[shape]
+		d = genDagFromShape(rng, cs.Seed*7919+int64(cs.Index), shapeCorpus[shape], sp.N)
+	} else {
+		sp.Hidden = true
+		sp.HiddenHalf = (sp.N - 1) / 2
+		sp.HideFrom = 0.1 + 0.3*rng.Float64()
+		sp.HideTo = sp.HideFrom + 0.3 + 0.3*rng.Float64()
+		sp.Skew = true
+		d = genDag(rng, cs.Seed*7919+int64(cs.Index), sp)
+	}
+	x := execDag(d, d.Events, ExecOpts{Store: "inmem", Cache: len(d.Events)*2 + 200, Batch: 1})
+	defer x.close()
+	res.Evaluations++
+	if x.Err != nil {
+		res.inconclusive(fmt.Sprintf("execution failed: %v", x.Err))
+		return res
+	}
+	decided := 0
+	for r := 0; r <= x.Store.LastRound(); r++ {
+		ri, err := x.Store.GetRound(r)
+		if err != nil {
+			continue
+		}
+		for _, w := range ri.Witnesses() {
+			_, fame := ri.VerifFame(w)
+			if fame != "True" && fame != "False" {
+				continue
+			}
+			decided++
+			res.Evaluations++
+			res.count("fame_decisions_replayed", 1)
+			votes := subjectVotes(x, d, w, r)
+			replay := ""
+			for j := r + 1; j <= x.Store.LastRound() && replay == ""; j++ {
+				for _, v := range votes[j] {
+					if v.Decides {
+						replay = map[bool]string{true: "True", false: "False"}[v.Vote]
+						break
+					}
+				}
+			}
+			if replay == "" {
+				res.violate("C19", "C19:fame-decided-without-a-supermajority-of-the-validators",
+					fmt.Sprintf("the fame of witness %s (round %d, creator %d) was decided (%s) although no later witness collects concurring votes from a supermajority of the validators of its round", trunc(w, 12), r, d.ByHash[w].Creator, fame),
+					map[string]interface{}{"n": sp.N, "round": r, "decided": fame, "shape": cs.Str("shape", "random"), "events": len(d.Events)})
+				return res
+			}
+			if replay != fame {
+				res.violate("C19", "C19:fame-decided-against-the-supermajority",
+					fmt.Sprintf("the fame of witness %s (round %d) was decided %s but the first witness that collects a supermajority of the validators says %s", trunc(w, 12), r, fame, replay),
+					map[string]interface{}{"n": sp.N, "round": r, "shape": cs.Str("shape", "random")})
+				return res
+			}
+		}
+	}
+	if decided >= 5 {
+		res.digest("c19fame", cs.Seed, cs.Index, len(d.Events), d.Events[len(d.Events)-1].Hash)
+	}
+	res.Sample = map[string]interface{}{"kind": "fame decisions replayed with the validators' supermajority as threshold", "n": sp.N, "events": len(d.Events), "decisions": decided, "shape": cs.Str("shape", "random")}
+	return res
 }
